@@ -9,7 +9,7 @@
 //! * `http`: `dmntk_server::start_server` from the working tree in a child process on a
 //!   loopback port; request sequences (definitions operations, evaluations, echo decisions,
 //!   rejected and malformed requests interleaved) against the handler model
-//!   (`Dmn.Server.serve`) and the repaired-handler specification (`handleFixed`).
+//!   (`Dmn.Server.serve`): byte for byte (the tie), and as JSON documents (the property).
 
 use crate::c17::{model_xml, Alphabet, MDef};
 use crate::model::Model;
@@ -619,39 +619,6 @@ fn to_feel(g: &G) -> String {
   }
 }
 
-/// The proposed repair of `Value::jsonify` / `FeelContext::jsonify`, written in Rust as it
-/// would go into /repo, so that the run ties it to the proved Lean function `jsonifyFixed`
-/// (`Json.escape`): strings, context keys and the kinds without a JSON form are escaped.
-pub fn json_escape(s: &str) -> String {
-  let mut out = String::with_capacity(s.len() + 2);
-  for c in s.chars() {
-    match c {
-      '"' => out.push_str("\\\""),
-      '\\' => out.push_str("\\\\"),
-      '\u{08}' => out.push_str("\\b"),
-      '\t' => out.push_str("\\t"),
-      '\n' => out.push_str("\\n"),
-      '\u{0C}' => out.push_str("\\f"),
-      '\r' => out.push_str("\\r"),
-      c if (c as u32) < 0x20 => out.push_str(&format!("\\u{:04x}", c as u32)),
-      c => out.push(c),
-    }
-  }
-  out
-}
-
-fn jsonify_repaired(v: &Value) -> String {
-  match v {
-    Value::Boolean(b) => format!("{}", b),
-    Value::Context(ctx) => format!("{{{}}}", ctx.iter().map(|(name, value)| format!("\"{}\": {}", json_escape(&name.to_string()), jsonify_repaired(value))).collect::<Vec<String>>().join(", ")),
-    Value::List(items) => format!("[{}]", items.as_vec().iter().map(jsonify_repaired).collect::<Vec<String>>().join(", ")),
-    Value::Number(n) => n.jsonify(),
-    Value::Null(_) => "null".to_string(),
-    Value::String(s) => format!("\"{}\"", json_escape(s)),
-    other => format!("\"{}\"", json_escape(&other.to_string())),
-  }
-}
-
 /// The structure of a value as the model's `JV` (the rendering itself is the model's job).
 fn to_jv(v: &Value) -> Sexp {
   match v {
@@ -718,15 +685,19 @@ const SIG_RAW: &str = "jsonify writes a string or context key containing '\"', '
 const SIG_OTHER: &str = "jsonify writes a value without JSON form as the bare text 'jsonify not implemented for: ...'";
 const SIG_NUM: &str = "jsonify writes a number text that is not a JSON number";
 const SIG_DECODE: &str = "jsonify text does not decode to the value";
-const SIG_REPLACE: &str = "POST /definitions/replace of a stored model answers 'already exist' (the handler calls Workspace::add)";
+const SIG_REPLACE: &str = "POST /definitions/replace does not answer as Workspace::replace of the same model";
 
+/// Which known shape a rendering failure has.  A number text that is no JSON number is a
+/// sufficient cause by itself (finding F17c); the other two shapes are the repaired defects
+/// F17a/F17b and would be regressions (a rendering that differs from the model is reported
+/// separately as a broken tie in any case).
 fn failure_signature(t: &Traits, numsok: bool) -> &'static str {
-  if t.other_kind {
+  if !numsok {
+    SIG_NUM
+  } else if t.other_kind {
     SIG_OTHER
   } else if t.needs_escape {
     SIG_RAW
-  } else if !numsok {
-    SIG_NUM
   } else {
     SIG_DECODE
   }
@@ -758,7 +729,7 @@ fn chars_of(s: &Sexp) -> Option<String> {
 fn run_jsonify(cfg: &Cfg, rep: &mut Report, model: &mut Model, rng: &mut Rng) {
   let n = if cfg.tier == "thorough" { 60_000 } else { 3_000 };
   let mut cases: Vec<(G, Value)> = vec![];
-  // corpus: the witnesses of F17
+  // corpus: the witnesses of the former findings F17a/F17b and of F17c
   let corpus = vec![
     G::Str("a\"b\\c\n".into()),
     G::Ctx(vec![("a\"b".into(), G::Null)]),
@@ -809,9 +780,6 @@ fn run_jsonify(cfg: &Cfg, rep: &mut Report, model: &mut Model, rng: &mut Rng) {
     let m_text = field(&a, "text").and_then(chars_of).unwrap_or_default();
     let m_decoded = field(&a, "decoded").map(|s| s.to_string()).unwrap_or_default();
     let m_expected = field(&a, "expected").map(|s| s.to_string()).unwrap_or_default();
-    let m_fixed = field(&a, "fixed").and_then(chars_of).unwrap_or_default();
-    let m_fixed_decoded = field(&a, "fixeddecoded").map(|s| s.to_string()).unwrap_or_default();
-    let noesc = field(&a, "noesc").and_then(|s| s.as_atom()) == Some("true");
     let numsok = field(&a, "numsok").and_then(|s| s.as_atom()) == Some("true");
     // the implementation
     let text = match guarded(|| v.jsonify()) {
@@ -852,27 +820,12 @@ fn run_jsonify(cfg: &Cfg, rep: &mut Report, model: &mut Model, rng: &mut Rng) {
     if expected.sexp().to_string() != m_expected {
       rep.disagree(Kind::ImplVsModel, "jsonify", "toJson differs from the harness's reading of the value", &input, &expected.sexp().to_string(), &m_expected);
     }
-    // the theorems, observed: inside the region the model decodes; the repaired renderer always
-    if noesc && numsok && m_decoded != m_expected {
-      rep.disagree(Kind::ImplVsModel, "jsonify", "model violates jsonify_decodes_partial", &input, &m_decoded, &m_expected);
-    }
-    if numsok && m_fixed_decoded != m_expected {
-      rep.disagree(Kind::ImplVsModel, "jsonify", "model violates jsonifyFixed_decodes", &input, &m_fixed_decoded, &m_expected);
-    }
-    // the repair as Rust code writes the same characters as the proved `jsonifyFixed`
-    let repaired = jsonify_repaired(v);
-    if repaired != m_fixed {
-      rep.disagree(Kind::ImplVsModel, "jsonify", "the Rust transcription of the repair differs from jsonifyFixed", &input, &repaired, &m_fixed);
-    }
-    if numsok {
-      // the repaired text is accepted by the independent parsers as well
-      match strict_parse(&m_fixed) {
-        Ok(j) if j == expected => {}
-        other => rep.disagree(Kind::ImplVsModel, "jsonify", "strict parser rejects the repaired rendering", &input, &format!("{:?}", other.map(|j| j.sexp().to_string())), &m_expected),
-      }
+    // the theorem, observed: with JSON number texts the model's rendering decodes to the value
+    if numsok && m_decoded != m_expected {
+      rep.disagree(Kind::ImplVsModel, "jsonify", "model violates jsonify_decodes", &input, &m_decoded, &m_expected);
     }
     if t.needs_escape || t.other_kind || t.compound {
-      rep.sample(json!({"family": "jsonify", "value": to_feel(g), "implementation": text, "model": m_text, "repaired": m_fixed, "decodes_to_value": good}));
+      rep.sample(json!({"family": "jsonify", "value": to_feel(g), "implementation": text, "model": m_text, "decodes_to_value": good}));
     }
   }
 }
@@ -1154,7 +1107,7 @@ fn run_http(cfg: &Cfg, rep: &mut Report, model: &mut Model, rng: &mut Rng) {
   }
 
   let mut sequences: Vec<Vec<Rq>> = vec![];
-  // corpus: F18 and the echo witnesses of F17
+  // corpus: the witnesses of the former findings F18 (replace of a stored model) and F17a/F17b (echo)
   let echo = |g: &G| Rq::Eval { model: "n1".into(), invocable: "E".into(), body: format!("{{x: {}}}", to_feel(g)) };
   sequences.push(vec![
     Rq::Add(Content::Model(models[0].clone())),
@@ -1284,9 +1237,8 @@ fn run_http(cfg: &Cfg, rep: &mut Report, model: &mut Model, rng: &mut Rng) {
   'seqs: for (((seq, req), ans), os) in sequences.iter().zip(reqs.iter()).zip(answers.iter()).zip(oracles.iter()) {
     let parsed = Sexp::parse(ans);
     let m_list: Vec<Sexp> = parsed.as_ref().and_then(|a| field_list(a, "model")).unwrap_or_default();
-    let s_list: Vec<Sexp> = parsed.as_ref().and_then(|a| field_list(a, "spec")).unwrap_or_default();
     let n_model = seq.iter().filter(|r| !matches!(r, Rq::Framework(_))).count();
-    if m_list.len() != n_model || s_list.len() != n_model {
+    if m_list.len() != n_model {
       rep.disagree(Kind::ImplVsModel, "http", "driver-error", req, "", ans);
       continue;
     }
@@ -1347,15 +1299,13 @@ fn run_http(cfg: &Cfg, rep: &mut Report, model: &mut Model, rng: &mut Rng) {
         continue;
       }
       let m = &m_list[k];
-      let s = &s_list[k];
       k += 1;
       let ml = m.as_list().unwrap_or(&[]);
       let m_kind = ml.first().map(|x| x.to_string()).unwrap_or_default();
       let m_body = ml.get(1).and_then(chars_of).unwrap_or_default();
       let m_wf = ml.get(3).and_then(|x| x.as_atom()) == Some("true");
-      let sl = s.as_list().unwrap_or(&[]);
-      let s_kind = sl.first().map(|x| x.to_string()).unwrap_or_default();
-      let s_json = sl.get(2).map(|x| x.to_string()).unwrap_or_default();
+      // the JSON document the response stands for (`Resp.json`): the specification of the body
+      let s_json = ml.get(2).map(|x| x.to_string()).unwrap_or_default();
       rep.hit(&format!("http:{}:{}", endpoint(r), m_kind));
       if m_kind == "added" {
         stored = true;
@@ -1388,10 +1338,10 @@ fn run_http(cfg: &Cfg, rep: &mut Report, model: &mut Model, rng: &mut Rng) {
       } else if body_json.is_ok() != m_wf {
         rep.disagree(Kind::ImplVsModel, "decode", "Lean decoder and strict parser differ", &input, &format!("{}", body_json.is_ok()), &format!("{}", m_wf));
       }
-      // -------- the specification: repaired handlers, value decoded
+      // -------- the property: the body is the JSON document the response stands for
       if spec_live {
         if let Ok(j) = &body_json {
-          let same = if s_kind == "(error parse)" || s_kind == "(error input)" { j.get("errors").is_some() } else { j.sexp().to_string() == s_json };
+          let same = if free_text { j.get("errors").is_some() } else { j.sexp().to_string() == s_json };
           if !same {
             let sig = if matches!(r, Rq::Replace(_)) {
               SIG_REPLACE.to_string()
@@ -1404,8 +1354,6 @@ fn run_http(cfg: &Cfg, rep: &mut Report, model: &mut Model, rng: &mut Rng) {
             // the states have diverged: the rest of this sequence is compared with the model only
             spec_live = false;
           }
-        } else if m_kind != s_kind {
-          spec_live = false;
         }
       }
       if rep.samples.len() < 12 && (m_kind == "value" || matches!(r, Rq::Replace(_))) && rng.chance(1, 20) {
